@@ -124,6 +124,10 @@ impl<'tx> Tx<'tx> {
                 .load(std::sync::atomic::Ordering::SeqCst);
             (shared.clone(), tx_id)
         };
+        // The snapshot is chosen while the reader list is locked: a writer that decides which
+        // pending pages to release must either see this reader registered or build on a header
+        // that is at least as new as the reader's, otherwise it could hand out the reader's pages.
+        let mut open_ro_txs = db.inner.open_ro_txs.lock().unwrap();
         let mut meta = db.inner.meta()?;
         debug_assert!(meta.valid());
         if writable && freelist_tx_id != meta.tx_id {
@@ -139,20 +143,18 @@ impl<'tx> Tx<'tx> {
                 freelist.free(meta.tx_id, *page_id);
             }
         }
-        {
-            let mut open_ro_txs = db.inner.open_ro_txs.lock().unwrap();
-            if writable {
-                meta.tx_id += 1;
-                if open_ro_txs.len() > 0 {
-                    freelist.release(open_ro_txs[0]);
-                } else {
-                    freelist.release(meta.tx_id);
-                }
+        if writable {
+            meta.tx_id += 1;
+            if open_ro_txs.len() > 0 {
+                freelist.release(open_ro_txs[0]);
             } else {
-                open_ro_txs.push(meta.tx_id);
-                open_ro_txs.sort_unstable();
+                freelist.release(meta.tx_id);
             }
+        } else {
+            open_ro_txs.push(meta.tx_id);
+            open_ro_txs.sort_unstable();
         }
+        drop(open_ro_txs);
         let freelist = Rc::new(RefCell::new(TxFreelist::new(meta.clone(), freelist)));
 
         let data = db.inner.data.lock()?.clone();
